@@ -94,6 +94,7 @@ fn e1_main(a: &Args) -> i32 {
     let det_every = a.u64("determinism-every", 0);
     let max_shrunk = a.u64("max-shrunk", 3);
     let max_violations = a.u64("max-violations", 6) as usize;
+    let sweep_every = a.u64("sweep-every", 0);
     let started = Instant::now();
 
     save_diag_fd();
@@ -246,7 +247,48 @@ fn e1_main(a: &Args) -> i32 {
             samples.push(r.to_json());
         }
 
+        // systematic single-preemption sweep over a sampled multi-thread run: every (victim, point, other)
+        let mut batch: Vec<(e1::E1Run, e1::E1Run, e1::RunReport, Vec<e1::Violation>)> = Vec::new();
+        if sweep_every > 0 && runs % sweep_every == 0 && run2.threads.len() >= 2 && rep.crashed.is_none() && rep.steps <= 400 && run2.total_ops() > 0 {
+            bump(&mut sums, "one_preempt_sweeps", 1);
+            let n = run2.threads.len();
+            for victim in 0..n {
+                let vsteps: u64 = isos2[victim].iter().map(|i| i.steps + 2).sum();
+                for other in 0..n {
+                    if other == victim || run2.threads[other].is_empty() {
+                        continue;
+                    }
+                    let mut order: Vec<u8> = vec![victim as u8, other as u8];
+                    order.extend((0..n as u8).filter(|t| *t as usize != victim && *t as usize != other));
+                    let stride = (vsteps / 120).max(1);
+                    let mut k = 0;
+                    while k < vsteps {
+                        let mut variant = run2.clone();
+                        variant.strategy = sched::Strategy::OnePreempt { order: order.clone(), k };
+                        variant.schedule = None;
+                        variant.fault = None;
+                        let r = e1::exec_in_child(&variant, &isos2);
+                        bump(&mut sums, "one_preempt_sweep_schedules", 1);
+                        bump(&mut sums, "steps", r.steps);
+                        bump(&mut sums, "switches_in_call", r.switches_in_call);
+                        if r.switches_in_call >= 1 {
+                            let mut h = prng::Hasher::new();
+                            h.u64(run_seed);
+                            h.u64(r.interleaving_hash);
+                            nontrivial.insert(h.0);
+                        }
+                        if !r.violations.is_empty() {
+                            let f = r.violations.clone();
+                            batch.push((variant.clone(), variant, r, f));
+                        }
+                        k += stride;
+                    }
+                }
+            }
+        }
+        batch.insert(0, (run.clone(), run2.clone(), rep.clone(), found));
         // violations: minimise and persist the first few distinct ones
+        for (run, run2, rep, found) in batch {
         for v in found {
             let sig = v.signature();
             let first_of_kind = seen_sigs.insert(sig.clone());
@@ -292,6 +334,7 @@ fn e1_main(a: &Args) -> i32 {
             let _ = std::fs::write(&path, serde_json::to_string_pretty(&doc).unwrap());
             violations.push(json!({"property": min_v.property, "class": min_v.class, "signature": min_v.signature(), "needs": min_v.needs,
                                    "replay": path, "summary": format!("{} -> expected {} got {}", min_v.op.as_ref().map(|o| o.short()).unwrap_or_default(), min_v.expected, min_v.got)}));
+        }
         }
         i += workers;
     }
